@@ -15,8 +15,52 @@ LADDER = {"quick": [(4, 1, ["call"]), (3, 2, ["call"])], "thorough": [(5, 1, ["c
 SPEC = {"r1": True, "r2": False}
 
 
+def _t(*st):
+    return ("t", tuple(st))
+
+
+def _y(s):
+    return ("y", s)
+
+
+_IA, _IB = gen.IA, gen.IB
+_SHB = _t(("with", "S0", (_y(_IA), _y(_IA))))
+# hand-written histories of activations that the ladder cannot reach: an override context OBJECT reused after it
+# completed a block (R0), and one pending overriding task awaited by several tasks that hold different overrides
+_P = ("probe",)
+
+
+def _w(kind, *st):
+    return ("with", kind, tuple(st))
+
+
+def _c(*st):
+    return ("c", _t(*st))
+
+
+def _l(*x):
+    return ("L", tuple(x))
+
+
+_SH = ("sh", 0)
+STAGED = [
+    ("P", _t(_w("R0", _y(_IA), _P), _P, _w("S0", _P, _w("R0", _P, _y(_IA), _P), _P, _y(_IB), _P), _P, _y(_IA), _P), (), ()),
+    ("P", _t(_w("S0", _w("R0", _y(_IA)), _P, _y(_IB), _w("R0", _P, _y(_IA)), _P, _y(_IB)), _P, _y(_IA)), (), ()),
+    ("P", _t(_y(_l(_c(_w("R0", _y(_IA)), _P, _w("S0", _w("R0", _y(_IB)), _P, _y(_IA)), _P),
+                   _c(_w("S0", _y(_IA), _w("R0", _y(_IB)), _P, _y(_IA)), _P)))), (), ()),
+    ("P", _t(_y(_l(_c(_w("S0", _y(_SH), _P, _y(_IB), _P)),
+                   _c(_w("S0", _y(_SH), _P, _y(_IB), _P)),
+                   _c(_w("S0", _y(_IB), _P, _y(_SH), _P, _y(_IA)))))), (_SHB,), ()),
+    ("P", _t(_w("S0", _y(_l(_c(_y(_SH), _P, _y(_IB)), _c(_w("S0", _y(_SH), _P), _P, _y(_IB)))), _P, _y(_IA)), _P), (_SHB,), ()),
+]
+
+
 def jobs(tier, seed):
-    return progx.ladder_jobs(LADDER[tier], MENU, CATS, SPEC)
+    j = {"bases": STAGED, "menu": [], "k": 0, "convs": ["call", "av"], "cats": CATS}
+    j.update(SPEC)
+    yield j
+    for j in progx.ladder_jobs(LADDER[tier], MENU, CATS, SPEC):
+        yield j
 
 
 worker_init = progx.worker_init
